@@ -68,15 +68,20 @@ def groups : Bool → Str → Str
   | nc, a :: b :: c :: t => (if nc then [44] else []) ++ [a, b, c] ++ groups true t
   | _, _ => []
 
+/-- the integer part with separators: a first group of `len % 3` bytes (if any), then groups of three -/
+def commaBody (ip : Str) : Str :=
+  (if ip.length % 3 ≠ 0 then ip.take (ip.length % 3) else []) ++ groups (ip.length % 3 ≠ 0) (ip.drop (ip.length % 3))
+
+/-- what follows the optional '-': `parts := strings.Split(s, ".")`, parts[0] grouped, then "." and parts[1] if present -/
+def commaUnsigned (s : Str) : Str :=
+  match (splitDot s).2 with
+  | none => commaBody (splitDot s).1
+  | some rest => commaBody (splitDot s).1 ++ [46] ++ (splitDot rest).1
+
 def commaNum (s : Str) : Str :=
-  let sign : Str := match s with | 45 :: _ => [45] | _ => []
-  let s := match s with | 45 :: t => t | _ => s
-  let p := splitDot s                       -- parts[0] and the rest
-  let r := p.1.length % 3
-  let body := (if r ≠ 0 then p.1.take r else []) ++ groups (r ≠ 0) (p.1.drop r)
-  match p.2 with
-  | none => sign ++ body
-  | some rest => sign ++ body ++ [46] ++ (splitDot rest).1      -- parts[1] of strings.Split(s, ".")
+  match s with
+  | 45 :: t => 45 :: commaUnsigned t
+  | _ => commaUnsigned s
 
 def comma (mult raw : Int) : Str := commaNum (toStr mult raw)
 def commaSign (mult raw : Int) : Str := if raw ≥ 0 then 43 :: comma mult raw else comma mult raw
@@ -89,13 +94,17 @@ def unquote (s : Str) : Str :=
 def isDigit (c : Nat) : Bool := 48 ≤ c && c ≤ 57
 def parseDigits (ds : Str) : Nat := ds.foldl (fun acc c => acc * 10 + (c - 48)) 0
 
+/-- at least one byte, digits only -/
+def parseUnsigned (ds : Str) : Option Nat :=
+  if ds = [] ∨ ds.all isDigit = false then none else some (parseDigits ds)
+
 /-- the grammar shared by `strconv.ParseInt(s, 10, 64)` and `big.Int.SetString(s, 10)`: optional sign, at least one
     digit, nothing else (no underscores in base 10) -/
 def parseSigned (s : Str) : Option Int :=
-  let neg := match s with | 45 :: _ => true | _ => false
-  let ds := match s with | 45 :: t => t | 43 :: t => t | _ => s
-  if ds = [] ∨ ds.all isDigit = false then none
-  else some (if neg then -(parseDigits ds : Int) else (parseDigits ds : Int))
+  match s with
+  | 45 :: t => (parseUnsigned t).map (fun n => -(n : Int))
+  | 43 :: t => (parseUnsigned t).map (fun n => (n : Int))
+  | t => (parseUnsigned t).map (fun n => (n : Int))
 
 /-- `strconv.ParseInt(s, 10, 64)`: out-of-range is an error -/
 def parseInt64 (s : Str) : Option Int :=
@@ -116,57 +125,65 @@ def hasExp (s : Str) : Bool := s.any (fun c => c == 69 || c == 101)
 def fracBuf (places : Nat) (f : Str) : Str :=
   ((49 :: f) ++ List.replicate (1 + places - (49 :: f).length) 48).take (1 + places)
 
+/-- `f64.FromString[T]`, the `switch parts[0]`: the scaled integer part and the sign flag, `none` = error -/
+def head64 (mult : Int) (p0 : Str) : Option (Int × Bool) :=
+  if p0 = [] then some (0, false)
+  else if p0 = [45] ∨ p0 = [45, 48] then some (0, true)
+  else match parseInt64 p0 with
+    | none => none
+    | some v =>
+      if v < 0 then some (wrap64 (wrap64 (-v) * mult), true)
+      else some (wrap64 (v * mult), p0.head? = some 45)
+
+/-- `f64.FromString[T]`, the `if len(parts) > 1` block and the final negation -/
+def tail64 (places : Nat) (mult : Int) (value : Int) (neg : Bool) (frac : Option Str) : Res :=
+  match frac with
+  | none => .ok (if neg then wrap64 (-value) else value)
+  | some f =>
+    match parseInt64 (fracBuf places f) with
+    | none => .err
+    | some fraction =>
+      let value := wrap64 (value + (fraction - mult))
+      .ok (if neg then wrap64 (-value) else value)
+
 /-- `f64.FromString[T]` -/
 def fromStr64 (places : Nat) (mult : Int) (str : Str) : Res :=
   if str = [] then .err else
   let str := stripCommas str
   if hasExp str then .exp else
-  let parts := splitDot str
-  let head : Option (Int × Bool) :=
-    if parts.1 = [] then some (0, false)
-    else if parts.1 = [45] ∨ parts.1 = [45, 48] then some (0, true)
-    else match parseInt64 parts.1 with
-      | none => none
-      | some v =>
-        if v < 0 then some (wrap64 (wrap64 (-v) * mult), true)
-        else some (wrap64 (v * mult), parts.1.head? = some 45)
-  match head with
+  match head64 mult (splitDot str).1 with
   | none => .err
-  | some (value, neg) =>
-    match parts.2 with
-    | none => .ok (if neg then wrap64 (-value) else value)
-    | some f =>
-      match parseInt64 (fracBuf places f) with
-      | none => .err
-      | some fraction =>
-        let value := wrap64 (value + (fraction - mult))
-        .ok (if neg then wrap64 (-value) else value)
+  | some (value, neg) => tail64 places mult value neg (splitDot str).2
 
-/-- `f128.FromString[T]` (big.Int arithmetic, saturating conversion at the end) -/
+/-- `f128.FromString[T]` (big.Int arithmetic), the `switch parts[0]` -/
+def head128 (mult : Int) (p0 : Str) : Option (Int × Bool) :=
+  if p0 = [] then some (0, false)
+  else if p0 = [45] ∨ p0 = [45, 48] then some (0, true)
+  else match parseSigned p0 with
+    | none => none
+    | some v =>
+      if v < 0 then some ((-v) * mult, true)
+      else some (v * mult, p0.head? = some 45)
+
+/-- `f128.FromString[T]`, the fraction block, the negation and the saturating `num.Int128FromBigInt` -/
+def tail128 (places : Nat) (mult : Int) (value : Int) (neg : Bool) (frac : Option Str) : Res :=
+  match frac with
+  | none => .ok (sat128 (if neg then -value else value))
+  | some f =>
+    match parseSigned (fracBuf places f) with
+    | none => .err
+    | some fraction =>
+      let value := value + fraction - mult
+      .ok (sat128 (if neg then -value else value))
+
+/-- `f128.FromString[T]` -/
 def fromStr128 (places : Nat) (mult : Int) (str : Str) : Res :=
   if str = [] then .err else
   let str := stripCommas str
   if hasExp str then .exp else
-  let parts := splitDot str
-  let head : Option (Int × Bool) :=
-    if parts.1 = [] then some (0, false)
-    else if parts.1 = [45] ∨ parts.1 = [45, 48] then some (0, true)
-    else match parseSigned parts.1 with
-      | none => none
-      | some v =>
-        if v < 0 then some ((-v) * mult, true)
-        else some (v * mult, parts.1.head? = some 45)
-  match head with
+  match head128 mult (splitDot str).1 with
   | none => .err
-  | some (value, neg) =>
-    match parts.2 with
-    | none => .ok (sat128 (if neg then -value else value))
-    | some f =>
-      match parseSigned (fracBuf places f) with
-      | none => .err
-      | some fraction =>
-        let value := value + fraction - mult
-        .ok (sat128 (if neg then -value else value))
+  | some (value, neg) => tail128 places mult value neg (splitDot str).2
 
 /-- `UnmarshalText` / `UnmarshalJSON`: `FromString(txt.Unquote(text))` -/
 def unmarshal64 (places : Nat) (mult : Int) (s : Str) : Res := fromStr64 places mult (unquote s)
